@@ -258,7 +258,7 @@ def label_programs(ctx, cfgs):
                 continue
             if o["bytes"] == exp:
                 agree += 1
-                if total % 997 == 1:
+                if total % 997 == 1 and len(items) >= 3 and any(it["op"] == "ins" for it in items):
                     ctx.sample({"label_program": items, "bytes": len(exp)})
             elif lands(row["items"], row["nl"], o["bytes"]):
                 drift(ctx, "X64AsmLabels", "other encoding, every jump lands: %s" % json.dumps(items))
@@ -364,6 +364,7 @@ def run(ctx):
     ctx.add("llvm_mc_audited", n_ok + sum(v[0] for v in failures.values()))
     ctx.add("llvm_mc_agree", n_ok)
     ctx.extra["operand_shape_classes_audited"] = len(shapes_ok)
+    ctx.extra["llvm_mc_disagreements_by_class"] = {k: v[0] for k, v in failures.items()}
     for key, (n, case) in failures.items():
         case["records_in_class"] = n
         if case["impl_equals_spec"]:
